@@ -167,6 +167,10 @@ enum CallKind {
     WriteAllHead,
     /// ... and the rest, which starts with the character's continuation bytes
     WriteAllRest,
+    /// `write!(s, "{}{}{}", head, nested, tail)` where the middle argument's Display impl prints a
+    /// whole record of its own through a fresh stream over the same shared handle (re-entrant use of
+    /// the stream lock)
+    FmtNested,
     /// ColorChoice::write_global(v)
     SetGlobal(u8),
     /// ColorChoice::global()
@@ -177,6 +181,8 @@ enum CallKind {
 struct Call {
     kind: CallKind,
     frags: Vec<String>,
+    /// fragments of the record printed from inside the Display argument of a `FmtNested` call
+    nested: Vec<String>,
 }
 
 #[derive(Clone, Debug)]
@@ -229,14 +235,14 @@ impl Scenario {
             for c in 0..ncalls {
                 if with_globals && rng.chance(1, 3) {
                     let kind = if rng.chance(1, 2) { CallKind::SetGlobal(rng.below(4) as u8) } else { CallKind::GetGlobal };
-                    calls.push(Call { kind, frags: vec![] });
+                    calls.push(Call { kind, frags: vec![], nested: vec![] });
                 }
                 let kind = match rng.below(5) {
                     0 | 1 => CallKind::Fmt,
                     2 => CallKind::Fmtln,
                     _ => CallKind::WriteAll,
                 };
-                calls.push(Call { kind, frags: record_frags(&mut rng, t, c) });
+                calls.push(Call { kind, frags: record_frags(&mut rng, t, c), nested: vec![] });
             }
             threads.push(calls);
             handle_per_call.push(rng.chance(1, 2));
@@ -250,9 +256,19 @@ impl Scenario {
                 let ch = *rng.pick(&["\u{e9}", "\u{20ac}", "\u{6f22}", "\u{1f600}"]);
                 let at = rng.range(2, frags.len() - 2);
                 frags.insert(at, format!("s{t}{ch}{ch}q"));
-                threads[t].push(Call { kind: CallKind::WriteAllHead, frags: frags.clone() });
-                threads[t].push(Call { kind: CallKind::WriteAllRest, frags });
+                threads[t].push(Call { kind: CallKind::WriteAllHead, frags: frags.clone(), nested: vec![] });
+                threads[t].push(Call { kind: CallKind::WriteAllRest, frags, nested: vec![] });
             }
+        }
+        // re-entrancy: one scenario in five has a call that prints a nested record while it is
+        // being formatted
+        if rng.chance(1, 5) {
+            let t = rng.below(nthreads);
+            let call = Call { kind: CallKind::FmtNested, frags: record_frags(&mut rng, t, 7), nested: record_frags(&mut rng, t + 4, 7) };
+            let at = rng.range(0, threads[t].len());
+            // (never between a head/rest pair)
+            let at = if at > 0 && threads[t][at - 1].kind == CallKind::WriteAllHead { at - 1 } else { at };
+            threads[t].insert(at, call);
         }
         Scenario { mode, short_writes, handle_per_call, locked_group, threads }
     }
@@ -288,6 +304,36 @@ impl Scenario {
         Some(if self.strips() { [stripped, raw] } else { [raw, stripped] })
     }
 
+    /// What one call contributes to the sink: any one of the alternatives, each a sequence of
+    /// contiguous blocks, each block in any of its renderings.
+    fn expected_item(&self, call: &Call) -> Option<Vec<Vec<Vec<Vec<u8>>>>> {
+        if call.kind == CallKind::FmtNested {
+            // the nested call's bytes are contiguous; so are the outer call's - with the nested
+            // record inside them (formatting under the lock, as the unchanged tree does) or in front
+            // of them (format first, write afterwards).  No other thread's bytes inside either.
+            let cut = call.frags.len().min(2);
+            let both = |s: String| -> [Vec<u8>; 2] {
+                let st = anstream::adapter::strip_str(&s).to_string().into_bytes();
+                let raw = s.into_bytes();
+                if self.strips() { [st, raw] } else { [raw, st] }
+            };
+            let head = both(call.frags[..cut].concat());
+            let tail = both(call.frags[cut..].concat());
+            let whole = both(call.frags.concat());
+            let inner = both(call.nested.concat());
+            let mut around = Vec::new();
+            for h in &head {
+                for n in &inner {
+                    for t in &tail {
+                        around.push([&h[..], &n[..], &t[..]].concat());
+                    }
+                }
+            }
+            return Some(vec![vec![around], vec![inner.to_vec(), whole.to_vec()]]);
+        }
+        self.expected_record(call).map(|forms| vec![vec![forms.to_vec()]])
+    }
+
     fn to_json(&self) -> Value {
         let mode_name = ["AutoStream::never", "AutoStream::always_ansi", "StripStream", "AutoStream::new(Never)", "AutoStream::always"][self.mode as usize % 5];
         json!({
@@ -297,8 +343,9 @@ impl Scenario {
             "handle_per_call": self.handle_per_call,
             "locked_group": self.locked_group,
             "threads": self.threads.iter().map(|t| t.iter().map(|c| json!({
-                "kind": match &c.kind { CallKind::Fmt => "write!".to_string(), CallKind::Fmtln => "writeln!".into(), CallKind::WriteAll => "write_all".into(), CallKind::WriteAllHead => "write_all[head]".into(), CallKind::WriteAllRest => "write_all[rest]".into(), CallKind::SetGlobal(v) => format!("write_global({v})"), CallKind::GetGlobal => "global()".into() },
+                "kind": match &c.kind { CallKind::Fmt => "write!".to_string(), CallKind::Fmtln => "writeln!".into(), CallKind::WriteAll => "write_all".into(), CallKind::WriteAllHead => "write_all[head]".into(), CallKind::WriteAllRest => "write_all[rest]".into(), CallKind::FmtNested => "write![nested print inside]".into(), CallKind::SetGlobal(v) => format!("write_global({v})"), CallKind::GetGlobal => "global()".into() },
                 "fragments": c.frags,
+                "nested_fragments": c.nested,
             })).collect::<Vec<_>>()).collect::<Vec<_>>(),
         })
     }
@@ -313,10 +360,15 @@ impl Scenario {
                     "write_all" => CallKind::WriteAll,
                     "write_all[head]" => CallKind::WriteAllHead,
                     "write_all[rest]" => CallKind::WriteAllRest,
+                    "write![nested print inside]" => CallKind::FmtNested,
                     "global()" => CallKind::GetGlobal,
                     other => CallKind::SetGlobal(other.trim_start_matches("write_global(").trim_end_matches(')').parse().unwrap_or(0)),
                 };
-                Call { kind, frags: c["fragments"].as_array().unwrap().iter().map(|f| f.as_str().unwrap().to_string()).collect() }
+                Call {
+                    kind,
+                    frags: c["fragments"].as_array().unwrap().iter().map(|f| f.as_str().unwrap().to_string()).collect(),
+                    nested: c["nested_fragments"].as_array().map(|a| a.iter().map(|f| f.as_str().unwrap_or("").to_string()).collect()).unwrap_or_default(),
+                }
             }).collect()
         }).collect();
         Some(Scenario {
@@ -367,8 +419,34 @@ impl std::fmt::Display for Frags<'_> {
     }
 }
 
-fn do_call(s: &mut dyn Write, call: &Call) {
+/// Prints a whole record through a fresh stream over the shared handle while being formatted.
+struct NestedPrint<'a> {
+    out: &'a SimStdout,
+    mode: u8,
+    frags: &'a [String],
+}
+impl std::fmt::Display for NestedPrint<'_> {
+    fn fmt(&self, _f: &mut std::fmt::Formatter<'_>) -> std::fmt::Result {
+        let raw = Seam(self.out.clone());
+        let mut s: Box<dyn Write> = match self.mode {
+            0 => Box::new(AutoStream::never(raw)),
+            1 => Box::new(AutoStream::always_ansi(raw)),
+            2 => Box::new(StripStream::new(raw)),
+            3 => Box::new(AutoStream::new(raw, ColorChoice::Never)),
+            _ => Box::new(AutoStream::always(raw)),
+        };
+        write!(s, "{}", Frags(self.frags)).unwrap();
+        Ok(())
+    }
+}
+
+fn do_call(s: &mut dyn Write, call: &Call, out: &SimStdout, mode: u8) {
     match call.kind {
+        CallKind::FmtNested => {
+            let cut = call.frags.len().min(2);
+            let n = NestedPrint { out, mode, frags: &call.nested };
+            write!(s, "{}{}{}", Frags(&call.frags[..cut]), n, Frags(&call.frags[cut..])).unwrap()
+        }
         CallKind::Fmt => match call.frags.len() {
             // literal pieces and several arguments, like a real format string
             n if n >= 3 => write!(s, "{}{}{}", Frag(&call.frags[0]), Frag(&call.frags[1]), Frags(&call.frags[2..])).unwrap(),
@@ -428,7 +506,7 @@ fn thread_body(sc: &Scenario, t: usize, out: SimStdout, reg: Arc<std::sync::Mute
                     let v = code_of(ColorChoice::global());
                     reg.lock().unwrap().push(RegEvent::Read(t, v));
                 }
-                _ => do_call(s, call),
+                _ => do_call(s, call, &out, sc.mode),
             }
         }
     };
@@ -483,26 +561,35 @@ fn thread_body(sc: &Scenario, t: usize, out: SimStdout, reg: Arc<std::sync::Mute
 /// The invariant, evaluated after all simulated threads have been joined.
 fn check(sc: &Scenario, sink: &[u8], reg: &[RegEvent]) -> Result<u64, String> {
     // expected records per thread, in order
-    let per_thread: Vec<Vec<[Vec<u8>; 2]>> =
-        sc.threads.iter().map(|calls| calls.iter().filter_map(|c| sc.expected_record(c)).collect()).collect();
+    let per_thread: Vec<Vec<Vec<Vec<Vec<Vec<u8>>>>>> =
+        sc.threads.iter().map(|calls| calls.iter().filter_map(|c| sc.expected_item(c)).collect()).collect();
     let mut next = vec![0usize; per_thread.len()];
+    // the alternative a thread's current item is in the middle of: (alternative, next block)
+    let mut cur: Vec<Option<(usize, usize)>> = vec![None; per_thread.len()];
     let mut pos = 0usize;
     let mut order = Fnv::default();
     let mut last_thread: Option<usize> = None;
     let mut started_group = vec![false; per_thread.len()];
     while pos < sink.len() {
         let mut matched = None;
-        'find: for (t, recs) in per_thread.iter().enumerate() {
-            if next[t] < recs.len() {
-                for form in &recs[next[t]] {
-                    if sink[pos..].starts_with(form) {
-                        matched = Some((t, form.len()));
-                        break 'find;
+        'find: for (t, items) in per_thread.iter().enumerate() {
+            if next[t] < items.len() {
+                let item = &items[next[t]];
+                let candidates: Vec<(usize, usize)> = match cur[t] {
+                    Some(c) => vec![c],
+                    None => (0..item.len()).map(|a| (a, 0)).collect(),
+                };
+                for (a, b) in candidates {
+                    for form in &item[a][b] {
+                        if sink[pos..].starts_with(form) {
+                            matched = Some((t, a, b, form.len()));
+                            break 'find;
+                        }
                     }
                 }
             }
         }
-        let Some((t, len)) = matched else {
+        let Some((t, a, b, len)) = matched else {
             let tail = String::from_utf8_lossy(&sink[pos..(pos + 60).min(sink.len())]).escape_debug().to_string();
             return Err(format!(
                 "output is not a concatenation of whole records: at byte {pos} no thread's next record starts here: {tail:?} (sink: {:?})",
@@ -516,7 +603,12 @@ fn check(sc: &Scenario, sink: &[u8], reg: &[RegEvent]) -> Result<u64, String> {
         started_group[t] = true;
         pos += len;
         order.byte(t as u8);
-        next[t] += 1;
+        if b + 1 == per_thread[t][next[t]][a].len() {
+            next[t] += 1;
+            cur[t] = None;
+        } else {
+            cur[t] = Some((a, b + 1));
+        }
         last_thread = Some(t);
     }
     for (t, recs) in per_thread.iter().enumerate() {
